@@ -2,6 +2,7 @@
 //! subscriber and box in its `_threads` / `Threads` form)
 #![allow(unused_macros, dead_code)]
 use crate::ast::*;
+use crate::common::*;
 use crate::value::*;
 use crate::vtime::{as_ticks, ticks, VSched};
 use rxrust::ops::throttle::ThrottleEdge;
